@@ -13,8 +13,11 @@ from . import tlc
 from .tlc import MachineryError
 
 ROOT = Path(__file__).resolve().parent.parent
-EVIDENCE = ROOT / "evidence"
-REPLAYS = ROOT / "replays"
+# VERIF_OUT_DIR redirects evidence/replays (used only by tools/seedtest.py so that runs against seeded changes
+# never overwrite the evidence of the real tree)
+_OUT = Path(os.environ["VERIF_OUT_DIR"]) if os.environ.get("VERIF_OUT_DIR") else ROOT
+EVIDENCE = _OUT / "evidence"
+REPLAYS = _OUT / "replays"
 KNOWN = ROOT / "known_findings.json"
 
 
@@ -143,7 +146,7 @@ class Run:
         n = len(self.violations)
         path = None
         if n < 8:
-            REPLAYS.mkdir(exist_ok=True)
+            REPLAYS.mkdir(parents=True, exist_ok=True)
             (REPLAYS / self.pid).mkdir(exist_ok=True)
             h = hashlib.sha1(canon(scenario).encode()).hexdigest()[:12]
             path = REPLAYS / self.pid / f"{h}.json"
@@ -192,7 +195,7 @@ class Run:
             "wall_s": round(time.time() - self.t0, 2),
             "violations": len(self.violations),
         }
-        EVIDENCE.mkdir(exist_ok=True)
+        EVIDENCE.mkdir(parents=True, exist_ok=True)
         (EVIDENCE / f"{self.pid}.json").write_text(json.dumps(ev, indent=1, default=str) + "\n")
         status = "VIOLATED" if self.violations else "held"
         print(f"[{self.pid}] {status}: tier={self.tier} seed={self.seed} states={self.states} "
